@@ -103,7 +103,8 @@ void *slu_vmalloc(size_t size, const char *file, int line)
 void slu_vfree(void *p, const char *file, int line)
 {
     pthread_mutex_lock(&mu);
-    ent_t *e = p ? find(p) : 0;
+    if (!p) { led.null_frees++; pthread_mutex_unlock(&mu); return; }    /* free(NULL) is a no-op in the production allocator */
+    ent_t *e = find(p);
     if (!e || e->state != 1) {
         led.bad_frees++;
         pthread_mutex_unlock(&mu);
